@@ -64,6 +64,7 @@ Theorem refines ops : guards_free [] None ops = true -> run_trie repaired None o
 Proof. intros G. apply run_correct; auto. apply Rep_empty. Qed.
 
 (* ---- witnesses ---- *)
+Local Open Scope N_scope.
 Definition b (l : list N) : list byte := map n2b l.
 
 (* prefix-trim: keys 0x1001, 0x1f02; prefix 0x10 *)
